@@ -375,12 +375,21 @@ type liveRange struct {
 	start uint16
 	n     uint16
 	owner int
-	idx   int64 // global allocation index (drawn just before the call)
+	// idx0 / idx1: a process-wide counter read just before and just after the allocator call. The call took effect
+	// somewhere in between; a goroutine that was descheduled around the call has a wide interval.
+	idx0, idx1 int64
 }
 
 // allocWindow: two blocks are compared only when fewer than 65536 identifiers can have been handed out
-// between them (200 allocations of at most 255 identifiers); beyond that a 16-bit allocator must reuse values.
-const allocWindow = 200
+// between them (at most 240 allocations of at most 255 identifiers, in-flight callers included); beyond that a
+// 16-bit allocator must reuse values. The number of allocations between two calls is bounded by the counter
+// interval spanning both plus the G callers that may have drawn the counter earlier and allocated later.
+const allocWindow = 240
+
+func allocSpan(a, b liveRange, g int) int64 {
+	lo, hi := min(a.idx0, b.idx0), max(a.idx1, b.idx1)
+	return hi - lo + int64(g)
+}
 
 func rangesOverlap(a, b liveRange) bool {
 	// ids used by a run: start+1 .. start+n (the TCP driver emits base+ttl), modulo 65536
@@ -415,19 +424,21 @@ func runC11AllocIPID(c *fw.Ctx, id string, base uint32, total int) {
 			var held []int
 			for i := 0; i < per; i++ {
 				n := uint8([]int{1, 2, 30, 64, 255, 255, 7}[r.Intn(7)])
-				idx := seq.Add(1)
+				idx0 := seq.Add(1)
 				start := packets.AllocPacketID(n)
-				nr := liveRange{start: start, n: uint16(n), owner: g, idx: idx}
+				idx1 := seq.Load()
+				nr := liveRange{start: start, n: uint16(n), owner: g, idx0: idx0, idx1: idx1}
 				mu.Lock()
 				for k, o := range live {
-					if idx-o.idx > allocWindow || o.idx-idx > allocWindow {
-						if idx-o.idx > allocWindow {
-							delete(live, k)
-						}
+					if idx0-o.idx1 > 4*allocWindow {
+						delete(live, k)
 						continue
 					}
+					if allocSpan(nr, o, G) > allocWindow {
+						continue // too far apart (or one of the two callers was descheduled around its call): reuse is legitimate
+					}
 					if rangesOverlap(nr, o) && viol.Add(1) == 1 {
-						c.Violate("C11", "alloc-overlap/ip-id", fmt.Sprintf("%s: block (%d,+%d] handed to caller %d overlaps live block (%d,+%d] of caller %d", id, nr.start, nr.n, g, o.start, o.n, o.owner), nil)
+						c.Violate("C11", "alloc-overlap/ip-id", fmt.Sprintf("%s: block (%d,+%d] handed to caller %d overlaps live block (%d,+%d] of caller %d (at most %d allocations apart)", id, nr.start, nr.n, g, o.start, o.n, o.owner, allocSpan(nr, o, G)), nil)
 					}
 				}
 				k := next
@@ -474,9 +485,11 @@ func runC11AllocEcho(c *fw.Ctx, id string, base uint32, total int) {
 			for i := 0; i < per; i++ {
 				idx := seq.Add(1)
 				e := icmp.VerifNextEchoID()
+				idx1 := seq.Load()
 				mu.Lock()
-				// an id may legitimately recur once 65536 identifiers were drawn since it was handed out
-				if o, dup := live[e]; dup && idx-liveIdx[e] < 60000 && viol.Add(1) == 1 {
+				// an id may legitimately recur once 65536 identifiers were drawn since it was handed out; the number of
+				// draws between the two calls is at most (counter after this call) - (counter before that call) + G
+				if o, dup := live[e]; dup && idx1-liveIdx[e]+G < 60000 && viol.Add(1) == 1 {
 					c.Violate("C11", "alloc-overlap/echo-id", fmt.Sprintf("%s: echo id %d handed to caller %d while still live at caller %d", id, e, g, o), nil)
 				}
 				live[e] = g
